@@ -195,6 +195,35 @@ func runEngineSelfTests() {
 			expect("stepped index "+name, indexGuarded(f, ia, nil, ia.Index), want)
 		}
 	}
+	// E2 through helpers: the equality test lives in lookupChecked; the caller only tests the returned error
+	for name, want := range map[string]bool{"GoodHelperGuard": true, "BadHelperGuard": false} {
+		if f := fn(name); f != nil {
+			eq := guardEdgesX(f, predEq(func(v ssa.Value) bool { _, ok := v.(*ssa.Extract); return ok }, func(v ssa.Value) bool { p, ok := v.(*ssa.Parameter); return ok && p.Name() == "want" }))
+			ef := callsLocal(f, "cases.effect")
+			if len(ef) != 1 || len(eq) != 1 {
+				selfErrs = append(selfErrs, fmt.Sprintf("E2 helper testdata shape %s (%d effect calls, %d equality edges)", name, len(ef), len(eq)))
+				continue
+			}
+			expect("E2 guardedBy through a helper and its returned error "+name, guardedBy(f, ef[0], eq), want)
+		}
+	}
+	// value-form `a == 0 || b` of a switch case: from the a == 0 edge only the case body is possible
+	if f := fn("GoodSwitchOr"); f != nil {
+		z := guardEdges(f, predEq(func(v ssa.Value) bool { p, ok := v.(*ssa.Parameter); return ok && p.Name() == "a" }, func(v ssa.Value) bool { n, ok := constIntVal(v); return ok && n == 0 }))
+		ef := callsLocal(f, "cases.effect")
+		if len(z) != 1 || len(ef) != 1 {
+			selfErrs = append(selfErrs, "E2 switch-or testdata shape")
+		} else {
+			r := reachFromEdge(z[0], newCut().callInstrs(ef))
+			reachesRet := false
+			for _, ret := range returns(f) {
+				if r.has(ret) {
+					reachesRet = true
+				}
+			}
+			expect("E2 value-form ||: the a == 0 edge always reaches the case body", reachesRet, false)
+		}
+	}
 	// E4
 	for name, want := range map[string]int{"BadLoop": 1, "GoodLoop": 0, "GoodConstLoop": 0} {
 		if f := fn(name); f != nil {
